@@ -3,6 +3,7 @@ import HmcVerif.Real.Grad
 import HmcVerif.Real.Grad2
 import HmcVerif.Real.Reflect
 import HmcVerif.Real.Fold
+import HmcVerif.Real.BoxTreeThm
 import HmcVerif.Props.C05
 import Mathlib.Analysis.SpecialFunctions.Log.Basic
 import Mathlib.LinearAlgebra.Matrix.Determinant.Basic
